@@ -203,12 +203,13 @@ def ws_pattern(pat):
     """Regex matching `pat` modulo whitespace differences."""
     toks = rustsrc.tokenize(pat)
     # the identifier VANY is a wildcard (shortest match, may span lines); a replacement may quote it back as VANY
-    parts = ['(.*?)' if t.text == 'VANY' else re.escape(t.text) for t in toks]
+    # VID is the same for a single identifier (field / variable name)
+    parts = ['(.*?)' if t.text == 'VANY' else (r'([A-Za-z_]\w*)' if t.text == 'VID' else re.escape(t.text)) for t in toks]
     return re.compile(r'\s*'.join(parts), re.S)
 
 
 def _fill(b, m):
-    return b.replace('VANY', m.group(1)) if m.groups() else b
+    return b.replace('VANY', m.group(1)).replace('VID', m.group(1)) if m.groups() else b
 
 
 def apply_rewrite(text, a, b, all_occ, what, log, tag):
